@@ -4,7 +4,7 @@
      osym: 0 = empty string, k+1 = input symbol k;  mode: 0 final_state, 1 empty_stack, 2 both
    configuration: [state, [remaining input], [stack, top LAST]] *)
 From Coq Require Import List Arith NArith Bool.
-From AV Require Import Base.Util Base.ITree Spec.Lang Spec.FA Spec.PDA Model.Codec Model.PDA.
+From AV Require Import Base.Util Base.ITree Spec.Lang Spec.FA Spec.PDA Spec.PDARank Model.Codec Model.PDA.
 Import ListNotations.
 
 Definition dec_mode (t : itree) : option acc_mode :=
@@ -37,7 +37,9 @@ Definition enc_unit (_ : unit) : itree := L [].
 
 (* op 1: NPDA stepwise  [pda, word, fuel] -> [levels, outcome, accepts]
    op 2: DPDA stepwise  [pda, word, fuel] -> [configurations, outcome, accepts]
-   op 3: DPDA constructor  pda -> [validate outcome, det_check, dpda_shape, valid_pda] *)
+   op 3: DPDA constructor  pda -> [validate outcome, det_check, dpda_shape, valid_pda]
+   op 4: fuel sufficiency  [pda, ranks (rank of state number i = i-th entry, 0 beyond), N, word]
+         -> [eps_ranked, pda_fuel_bound N m w, eps_shrinking] *)
 Definition d02 (op : nat) (t : itree) : itree :=
   match op, t with
   | 1, L [tm; tw; tf] =>
@@ -59,6 +61,12 @@ Definition d02 (op : nat) (t : itree) : itree :=
     | Some m => L [enc_res enc_unit (dpda_validate m); Ib (dpda_det_check m); Ib (dpda_shape m);
                    Ib (valid_pda m)]
     | None => bad_input
+    end
+  | 4, L [tm; tr; tn; tw] =>
+    match dec_pda tm, dec_nats tr, dec_nat tn, dec_word tw with
+    | Some m, Some ranks, Some n, Some w =>
+      L [Ib (eps_ranked (fun q => nth q ranks 0) n m); In_ (pda_fuel_bound n m w); Ib (eps_shrinking m)]
+    | _, _, _, _ => bad_input
     end
   | _, _ => bad_input
   end.
